@@ -43,6 +43,10 @@ class MMSTH(Harness):
     BMC = True
     BMC_DEPTH = {"quick": 3, "thorough": 4}
     SYM_DEPTH = {"quick": 2, "thorough": 3}     # depth for the symbolic instance MMST@sym
+    # C11: time_limit decoupled from the generator's walk-buffer length (max_step); the default constructor makes them equal, so a
+    # horizon test that reads the buffer length instead of time_limit is invisible unless they differ
+    C11_EXTRA = {"quick": [("MMST", 2, {"max_step": 5}), ("MMST@sym", 2, {"max_step": 4})],
+                 "thorough": [("MMST", 2, {"max_step": 5}), ("MMST@sym", 2, {"max_step": 4}), ("MMST", 3, {"max_step": 6}), ("MMST@1", 1, {"max_step": 3})]}
     RESET_INV = False          # SplitRandomGenerator: random-walk while-loops, unrolled encoding inconclusive (DESIGN C10)
     BMC_EMITTED = True         # C06: from the 2nd step on the agents only have to respect the mask the environment emitted
     UNROLL = 4                 # the tie-break while_loop runs exactly num_agents (=2) iterations
@@ -93,11 +97,12 @@ class MMSTH(Harness):
                 for k2 in range(k1):
                     pre.append(nv[a, k1] != nv[a, k2])
         pos = np.array([nv[a, 0] for a in range(A_)], dtype=object)
-        walk = np.empty((A_, T_), dtype=object)
+        W_ = int(self.over.get("max_step") or T_)     # walk buffer length = the generator's max_step
+        walk = np.empty((A_, W_), dtype=object)
         cni = np.empty((A_, N_), dtype=object)
         ne = np.empty((A_, N_, N_), dtype=object)
         for a in range(A_):
-            for i in range(T_):
+            for i in range(W_):
                 walk[a, i] = pos[a] if i == 0 else X.const(-1)
             for n in range(N_):
                 cni[a, n] = where(pos[a] == n, n, -1)
